@@ -301,9 +301,12 @@ class AsyncTLSStreamTransport(AsyncStreamTransport):
                 raise
             else:
                 # Flush any pending writes first
-                async with self.__transport_send_lock:
-                    if self._write_bio.pending:
-                        await self._transport.send_all(self._write_bio.read())
+                # NOTE: Do not wait for the lock if there is nothing to send. The result (e.g. data already decrypted by read())
+                #       would be lost if the task is cancelled while another task holds the lock (blocked sender).
+                if self._write_bio.pending:
+                    async with self.__transport_send_lock:
+                        if self._write_bio.pending:
+                            await self._transport.send_all(self._write_bio.read())
 
                 return result
 
